@@ -382,6 +382,57 @@ class Gen:
         kids = ([prep] if prep is not None else []) + [pro, subj, self.P("VP", vpk)]
         return self.P("SP", kids)
 
+    def coord_subject(self):
+        members = []
+        for _ in range(self.rng.choice([2, 2, 3])):
+            if self.rng.random() < 0.65:
+                members.append(self.np(2, free=False, rel_ok=False)[0])
+            else:
+                members.append(self.subject_pro(late_ok=False))
+        return self.P("CP", [self.T("C", self.conj())] + members)
+
+    def postverbal_vp(self, cp, tags):
+        """a VP realized BEFORE its coordinated subject `cp`"""
+        rng, lang = self.rng, self.lang
+        x = rng.random()
+        if lang == "fr" and x < 0.3:
+            v = self.T("V", self.verb(copula=True), self.tense_opts(simple=True))
+            self.rel(v, cp, "verb", tags=tags + ["copula"])
+            kids = [v]
+            if rng.random() < 0.3:
+                kids.append(self.T("Adv", self.adv()))
+            if rng.random() < 0.6:
+                a = self.T("A", self.adj())
+                self.rel(a, cp, "attribute", tags=tags)
+            else:
+                a = self.T("V", self.verb(), [["t", "pp"]])
+                self.rel(a, cp, "participle", tags=tags + ["copula"])
+            kids.append(a)
+        elif lang == "fr" and x < 0.6:
+            v = self.T("V", self.verb(aux=["êt"]), [["t", rng.choice(["pc", "pq", "fa"])]])
+            self.rel(v, cp, "verb", tags=tags + ["aux-être", "compound"])
+            kids = [v]
+        else:
+            v = self.T("V", self.verb(aux=["av", "-"]), self.tense_opts(simple=True))
+            self.rel(v, cp, "verb", tags=tags)
+            kids = [v]
+        return self.P("VP", kids)
+
+    def postverbal(self):
+        """structures whose coordinated subject comes AFTER the words that agree with it"""
+        rng, lang = self.rng, self.lang
+        cp = self.coord_subject()
+        self.tags.add("postverbal-coord-subject")
+        if lang == "fr" and rng.random() < 0.6:
+            npn, head = self.np(1, rel_ok=False)
+            plem = rng.choice(["que", "où", "dont"])
+            vp = self.postverbal_vp(cp, ["postverbal-subject", "inverted-relative", "pro=" + plem])
+            npn["kids"].append(self.P("SP", [self.T("Pro", plem), vp, cp]))
+            return npn
+        adv = self.T("Adv", rng.choice(["alors", "ici", "souvent"]) if lang == "fr" else rng.choice(["here", "there", "then"]))
+        vp = self.postverbal_vp(cp, ["postverbal-subject", "verb-first-clause"])
+        return self.P("S", [adv, vp, cp])
+
     def tense_opts(self, simple=False):
         rng = self.rng
         if self.lang == "fr":
@@ -872,6 +923,24 @@ def run_job(job, want_snaps=True):
         return out
     cap = list(_CAP)
     del _CAP[:]
+    if job.get("switch"):
+        # the same history, the OTHER language made current just before realize(): every constituent knows its own
+        # language since its construction, so the text (hence every agreeing form) must be the same
+        w2 = snapshot.World()
+        _, end2 = w2.run(job["ops"], snaps=False)
+        snapshot.load("en" if lang == "fr" else "fr")
+        try:
+            with contextlib.redirect_stderr(io.StringIO()):
+                text2 = str(w2.objs[job["root"]].realize()) if end2 == "ok" else "!" + end2
+        except Exception as e:  # noqa
+            text2 = "!" + type(e).__name__
+        del _CAP[:]
+        snapshot.load(lang)
+        out["checked"] += 1
+        if text2 != out["text"]:
+            out["fails"].append({"rel": {"kind": "pro", "depk": ["Pro", None], "ctrlk": ["NP", None], "tags": ["current-language-switched"],
+                                         "dep": job["root"], "ctrl": job["root"], "feats": []},
+                                 "why": "lang-switch", "got": text2, "exp": out["text"]})
     forms_of = {}
     for obj, forms in cap:
         forms_of.setdefault(id(obj), forms)      # first realization of the object
